@@ -1,0 +1,208 @@
+//go:build verif
+
+// Contracts for the verification machinery in /verif (comment-only; compiled only with -tags verif).
+//
+// Layer L1: store accessors, verified against the abstract store wrk_store (a map from wrkchain.Key to
+// the stored bytes; nil bytes = absent) and the codec round trip.  Every postcondition describes the whole
+// store, so nothing outside the touched key can change unnoticed.
+package keeper
+
+//@ ghost wrk_store (Array wrkchain.Key (Slice Int))
+//@ kvstore wrk_store wrk_key wrk_prefix wrk_inprefix wrk_keylt wrkchain.Key
+
+// ---------------------------------------------------------------- registrations
+
+//@ func Keeper.SetWrkChain(ctx, wrkchain) (err)
+//@   props C07 C08 C09
+//@   modifies wrk_store
+//@   ensures err == nil && wrk_store == wcPut(old(wrk_store), wrkchain)
+
+//@ func Keeper.IsWrkChainRegistered(ctx, wrkchainId) (ok)
+//@   props C07 C08 C09
+//@   pure
+//@   ensures ok == wcHas(wrk_store, wrkchainId)
+
+//@ func Keeper.GetWrkChain(ctx, wrkchainId) (w, found)
+//@   props C07 C08 C09
+//@   pure
+//@   ensures found == wcHas(wrk_store, wrkchainId)
+//@   ensures found ==> w == wcGet(wrk_store, wrkchainId)
+//@   ensures !found ==> w.Lastblock == 0 && w.NumBlocks == 0 && w.LowestHeight == 0 && w.WrkchainId == 0 && w.Owner == ""
+
+//@ func Keeper.GetWrkChainOwner(ctx, wrkchainId) (owner)
+//@   props C07 C08 C09 C13
+//@   pure
+//@   ensures wcHas(wrk_store, wrkchainId) && validBech32(wcGet(wrk_store, wrkchainId).Owner) ==> owner == addrOf(wcGet(wrk_store, wrkchainId).Owner)
+//@   ensures !(wcHas(wrk_store, wrkchainId) && validBech32(wcGet(wrk_store, wrkchainId).Owner)) ==> len(owner) == 0
+
+//@ func Keeper.IsAuthorisedToRecord(ctx, wrkchainId, recorder) (ok)
+//@   props C07 C08 C09 C13
+//@   pure
+//@   requires 1 <= len(recorder)
+//@   ensures ok ==> wcHas(wrk_store, wrkchainId) && validBech32(wcGet(wrk_store, wrkchainId).Owner) && sameAddr(recorder, addrOf(wcGet(wrk_store, wrkchainId).Owner))
+
+// ---------------------------------------------------------------- highest id
+
+//@ func Keeper.GetHighestWrkChainID(ctx) (id, err)
+//@   props C09
+//@   pure
+//@   requires wrkHighestSet(wrk_store) ==> len(wrk_store[kHighest]) == 8
+//@   ensures (err == nil) == wrkHighestSet(wrk_store)
+//@   ensures err == nil ==> wrkHighestIs(wrk_store, id)
+
+//@ func Keeper.SetHighestWrkChainID(ctx, wrkChainID)
+//@   props C09
+//@   modifies wrk_store
+//@   ensures wrkHighestIs(wrk_store, wrkChainID)
+//@   ensures forall k wrkchain.Key :: k != kHighest ==> wrk_store[k] == old(wrk_store)[k]
+
+// ---------------------------------------------------------------- storage limits
+
+//@ func Keeper.HasWrkChainStorageLimit(ctx, wrkchainId) (ok)
+//@   props C08 C09
+//@   pure
+//@   ensures ok == limHas(wrk_store, wrkchainId)
+
+//@ func Keeper.GetWrkChainStorageLimit(ctx, wrkchainId) (lim, found)
+//@   props C08 C09
+//@   pure
+//@   ensures found == limHas(wrk_store, wrkchainId)
+//@   ensures found ==> lim == unmarshalLimit(wrk_store[kLimit(wrkchainId)])
+//@   ensures !found ==> lim.WrkchainId == wrkchainId && lim.InStateLimit == 50000
+
+//@ func Keeper.SetWrkChainStorageLimit(ctx, wrkchainId, limit) (err)
+//@   props C08 C09
+//@   modifies wrk_store
+//@   ensures err == nil && wrk_store == limPut(old(wrk_store), wrkchainId, limit)
+
+// ---------------------------------------------------------------- records
+
+//@ func Keeper.SetWrkChainBlock(ctx, wrkchainId, wrkchainBlock) (err)
+//@   props C07 C08
+//@   modifies wrk_store
+//@   ensures err == nil && wrk_store == blkPut(old(wrk_store), wrkchainId, wrkchainBlock)
+
+//@ func Keeper.IsWrkChainBlockRecorded(ctx, wrkchainId, height) (ok)
+//@   props C07 C08
+//@   pure
+//@   ensures ok == blkHas(wrk_store, wrkchainId, height)
+
+//@ func Keeper.GetWrkChainBlock(ctx, wrkchainId, height) (b, found)
+//@   props C07 C08
+//@   pure
+//@   ensures found == blkHas(wrk_store, wrkchainId, height)
+//@   ensures found ==> b == blkGet(wrk_store, wrkchainId, height)
+
+//@ func Keeper.deleteWrkChainHash(ctx, wrkchainId, height) (err)
+//@   props C07 C08
+//@   modifies wrk_store
+//@   ensures err == nil
+//@   ensures blkHas(old(wrk_store), wrkchainId, height) ==> wrk_store == blkDel(old(wrk_store), wrkchainId, height)
+//@   ensures !blkHas(old(wrk_store), wrkchainId, height) ==> wrk_store == old(wrk_store)
+
+// ---------------------------------------------------------------- parameters
+
+//@ func Keeper.GetParams(ctx) (params)
+//@   props C08 C09 C16 C06
+//@   pure
+//@   ensures wrkParamsSet(wrk_store) ==> params == wrkParams(wrk_store)
+
+//@ func Keeper.SetParams(ctx, params) (err)
+//@   props C16
+//@   modifies wrk_store
+//@   ensures err == nil ==> wrk_store == wrkParamsPut(old(wrk_store), params)
+//@   ensures err == nil ==> validDenom(params.Denom) && params.FeeRegister >= 1 && params.FeeRecord >= 1 && params.FeePurchaseStorage >= 1
+//@   ensures err == nil ==> params.DefaultStorageLimit >= 1 && params.MaxStorageLimit >= 1 && params.DefaultStorageLimit <= params.MaxStorageLimit
+//@   ensures err != nil ==> wrk_store == old(wrk_store)
+
+//@ func Keeper.GetParamDenom(ctx) (r)
+//@   props C06 C16
+//@   pure
+//@   ensures wrkParamsSet(wrk_store) ==> r == wrkParams(wrk_store).Denom
+//@ func Keeper.GetParamRegistrationFee(ctx) (r)
+//@   props C06 C16
+//@   pure
+//@   ensures wrkParamsSet(wrk_store) ==> r == wrkParams(wrk_store).FeeRegister
+//@ func Keeper.GetParamRecordFee(ctx) (r)
+//@   props C06 C16
+//@   pure
+//@   ensures wrkParamsSet(wrk_store) ==> r == wrkParams(wrk_store).FeeRecord
+//@ func Keeper.GetParamPurchaseStorageFee(ctx) (r)
+//@   props C06 C16
+//@   pure
+//@   ensures wrkParamsSet(wrk_store) ==> r == wrkParams(wrk_store).FeePurchaseStorage
+//@ func Keeper.GetParamDefaultStorageLimit(ctx) (r)
+//@   props C08 C09 C16
+//@   pure
+//@   ensures wrkParamsSet(wrk_store) ==> r == wrkParams(wrk_store).DefaultStorageLimit
+//@ func Keeper.GetParamMaxStorageLimit(ctx) (r)
+//@   props C08 C16
+//@   pure
+//@   ensures wrkParamsSet(wrk_store) ==> r == wrkParams(wrk_store).MaxStorageLimit
+
+// ================================================================ Layer L2: keeper logic (verified against the L1 contracts only)
+
+// The lowest height in state is read with a paginated prefix iterator (page 1, limit 1: the first key under
+// the chain's prefix).  The iteration helper is executed at the call site (its loop is unrolled; with limit 1
+// it ends after one element); the iterator itself follows the assumed store-iterator semantics.
+//@ func Keeper.IterateWrkChainBlockHashesPaginated(ctx, wrkchainID, page, limit, cb)
+//@   inline
+
+//@ func Keeper.GetLastWrkChainHeightInState(ctx, wrkchainID) (height)
+//@   props C07 C08
+//@   pure
+//@   requires BLK_KEYED(wrk_store, wrkchainID)
+//@   ensures forall h uint64 :: {wrk_store[kBlock(wrkchainID, h)]} blkHas(wrk_store, wrkchainID, h) ==> height <= h && blkHas(wrk_store, wrkchainID, height)
+//@   ensures (forall h uint64 :: {wrk_store[kBlock(wrkchainID, h)]} !blkHas(wrk_store, wrkchainID, h)) ==> height == 0
+
+//@ func Keeper.QuickCheckHeightIsNew(ctx, wrkchainId, height) (ok)
+//@   props C07
+//@   pure
+//@   ensures wcHas(wrk_store, wrkchainId) ==> ok == (height > wcGet(wrk_store, wrkchainId).Lastblock)
+
+//@ func Keeper.RecordNewWrkchainHashes(ctx, wrkchainId, height, blockHash, parentHash, hash1, hash2, hash3) (deleted, err)
+//@   props C07 C08 C09
+//@   requires wcHas(wrk_store, wrkchainId) && WRK_INV(wrk_store, wrkchainId)
+//@   requires height > wcGet(wrk_store, wrkchainId).Lastblock
+//@   requires wcGet(wrk_store, wrkchainId).NumBlocks < 2^64 - 1
+//@   requires 0 <= unixSecs(blockTime(ctx)) && unixSecs(blockTime(ctx)) < 2^63
+//@   let w0 := wcGet(old(wrk_store), wrkchainId)
+//@   let L := limGet(old(wrk_store), wrkchainId)
+//@   let rec := mkBlock(height, blockHash, parentHash, hash1, hash2, hash3, unixSecs(blockTime(ctx)))
+//@   let w1 := wcGet(wrk_store, wrkchainId)
+//@   modifies wrk_store
+//@   nopanic
+//@   ensures @ok err == nil
+//@   ensures @no_prune w0.NumBlocks + 1 <= L ==> deleted == 0 && wrk_store == wcPut(blkPut(old(wrk_store), wrkchainId, rec), w1)
+//@   ensures @prune w0.NumBlocks + 1 > L ==> deleted == w0.LowestHeight && deleted >= 1 && wrk_store == wcPut(blkDel(blkPut(old(wrk_store), wrkchainId, rec), wrkchainId, deleted), w1)
+//@   ensures @counters w1.NumBlocks == min(w0.NumBlocks + 1, L) && w1.Lastblock == height
+//@   ensures @identity wcSameIdentity(w1, w0)
+//@   ensures @inv WRK_INV(wrk_store, wrkchainId)
+
+//@ func Keeper.RegisterNewWrkChain(ctx, moniker, wrkchainName, genesisHash, baseType, owner) (id, err)
+//@   props C08 C09
+//@   requires wrkHighestSet(wrk_store) ==> len(wrk_store[kHighest]) == 8
+//@   requires wrkParamsSet(wrk_store)
+//@   requires 0 <= unixSecs(blockTime(ctx)) && unixSecs(blockTime(ctx)) < 2^63
+//@   let w1 := wcGet(wrk_store, id)
+//@   modifies wrk_store
+//@   ensures @needs_highest (err == nil) == wrkHighestSet(old(wrk_store))
+//@   ensures @fail_nochange err != nil ==> wrk_store == old(wrk_store)
+//@   ensures @id err == nil ==> wrkHighestIs(old(wrk_store), id) && wrkHighestIs(wrk_store, wrapu64(id + 1))
+//@   ensures @stored err == nil ==> wcHas(wrk_store, id) && w1.WrkchainId == id && w1.Moniker == moniker && w1.Name == wrkchainName && w1.Genesis == genesisHash && w1.Type == baseType && w1.Owner == strOf(owner)
+//@   ensures @counters err == nil ==> w1.Lastblock == 0 && w1.NumBlocks == 0 && w1.LowestHeight == 0 && w1.RegTime == unixSecs(blockTime(ctx))
+//@   ensures @limit err == nil ==> limHas(wrk_store, id) && limGet(wrk_store, id) == wrkParams(old(wrk_store)).DefaultStorageLimit
+//@   ensures @frame err == nil ==> forall k wrkchain.Key :: k != kWrkChain(id) && k != kLimit(id) && k != kHighest ==> wrk_store[k] == old(wrk_store)[k]
+
+//@ func Keeper.IncreaseInStateStorage(ctx, wrkchainId, amount) (err)
+//@   props C08
+//@   requires limHas(wrk_store, wrkchainId)
+//@   modifies wrk_store
+//@   ensures err == nil && wrk_store == limPut(old(wrk_store), wrkchainId, wrapu64(limGet(old(wrk_store), wrkchainId) + amount))
+
+//@ func Keeper.GetMaxPurchasableSlots(ctx, wrkchainId) (n)
+//@   props C08 C06
+//@   pure
+//@   requires wrkParamsSet(wrk_store)
+//@   ensures limHas(wrk_store, wrkchainId) ==> n == max(0, wrkParams(wrk_store).MaxStorageLimit - limGet(wrk_store, wrkchainId))
+//@   ensures !limHas(wrk_store, wrkchainId) ==> n == 0
